@@ -499,6 +499,8 @@ def check_on_geo1(
 
     # Transform to None empty dataframes
     for sheet, df in file_dict.items():
+        if not isinstance(df, pd.DataFrame):
+            continue
         if df.empty:
             file_dict[sheet] = None
 
@@ -741,6 +743,8 @@ def check_on_geo2(
 
     # Transform to None empty dataframes
     for sheet, df in file_dict.items():
+        if not isinstance(df, pd.DataFrame):
+            continue
         if df.empty:
             file_dict[sheet] = None
 
